@@ -160,8 +160,8 @@ theorem wire (T : Table) (P : Bytes → Prop) {item : Item} {bs : Bytes} (h : En
   | int256 h1 h2 => exact ⟨0, fun fuel _ => by simp [SerOK, serOne, serFixed]⟩
   | boolT => exact ⟨0, fun fuel _ => by simp [SerOK, serOne, serFixed, boolTrueId, natToLE]⟩
   | boolF => exact ⟨0, fun fuel _ => by simp [SerOK, serOne, serFixed, boolFalseId, natToLE]⟩
-  | bytes h1 h2 h3 => exact ⟨0, fun fuel _ => by simp [SerOK, serOne, frame_eq_encodeBytes]⟩
-  | string h1 h2 h3 h4 => exact ⟨0, fun fuel _ => by simp [SerOK, serOne, frame_eq_encodeBytes]⟩
+  | bytes h1 h2 h3 => exact ⟨0, fun fuel _ => by simp [SerOK, serOne, frame?, h2, frame_eq_encodeBytes]⟩
+  | string h1 h2 h3 h4 => exact ⟨0, fun fuel _ => by simp [SerOK, serOne, frame?, h3, frame_eq_encodeBytes]⟩
   | bare hn hc hb ih =>
     obtain ⟨N, hN⟩ := ih
     refine ⟨N + 1, fun fuel hf => ?_⟩
